@@ -10,6 +10,7 @@ import (
 //   mode 0: the sender sends n values (never closes); cancel may fire at any step
 //   mode 1: the sender sends n values and closes the send side; no cancel
 //   recv 1: a receiver ranges over the receive side; recv 0: nobody receives
+//   burst 1: all n sends have completed (buffered) before the pump starts
 // Queue nodes and the per-receive cells the pump takes the address of live in
 // bounded arenas. sync.Pool is modelled as "always fresh" (node reuse is
 // outside the claim).
@@ -26,8 +27,18 @@ func VUnbound() {
 	rcv, snd := New[int](ctx, capc)
 	sent, got := 0, 0
 	cancelled, sentAtCancel, drained := false, 0, false
-	vrt.Go("sender", func() {
+	// burst=1: the n sends complete before anything else runs (they fit the
+	// buffer: cap >= n), so the pump finds them all in the input buffer - also
+	// when the first thing it sees is the cancellation
+	burst := vrt.Param("burst", 0) == 1
+	if burst {
 		for i := 0; i < n; i++ {
+			snd <- xs[i]
+		}
+		sent = n
+	}
+	vrt.Go("sender", func() {
+		for i := 0; i < n && !burst; i++ {
 			vrt.Pace("sender")
 			if !vrt.TrySend(snd, xs[i]) {
 				return // the pump has shut the send side down after cancel
